@@ -17,6 +17,18 @@ Proof.
            (conj gen_stream_eq gen_select_eq))))).
 Qed.
 
+Lemma gen_stats_methods_are_model : forall (A B C Args : Type),
+  (forall nm (f : Args -> list B -> C) a (s : stats A B C), gen_st_register nm f a s = (st_register nm f a s, Ok tt)) /\
+  (forall data (s : stats A B C), NoDup (map fst (s_funs s)) -> gen_st_compile data s = (s, Ok (st_compile s data))) /\
+  (forall data (m : mstats A B C), NoDup (map fst m) -> funs_distinct m ->
+     gen_ms_compile data m = (m, Ok (ms_compile m data))) /\
+  (forall nm (f : Args -> list B -> C) a (m : mstats A B C), gen_ms_register nm f a m = (ms_register nm f a m, Ok tt)).
+Proof.
+  intros A B C Args.
+  exact (conj (@gen_st_register_eq A B C Args) (conj (@gen_st_compile_eq A B C) (conj (@gen_ms_compile_eq A B C)
+           (@gen_ms_register_eq A B C Args)))).
+Qed.
+
 (* wf_hist h: the keyword dictionaries of the record operations have distinct keys at every level (wf_dict), as
    every Python dict has *)
 Lemma gen_history_is_model : forall h s, wf_hist h ->
